@@ -104,3 +104,48 @@ Example c04_example :
   query_records Linear 14 5 c04_witness_file 0 100 20060 = Some c04_witness_file /\
   query_records Binned 14 5 c04_witness_file 0 100 20060 = Some c04_witness_file.
 Proof. vm_compute. split; reflexivity. Qed.
+
+(* ---- "used in memory or after being written to and read from an index file": the same
+   query = scan statement for the index that is read back from the bytes of the index file
+   (writer and reader models of NV.Index.Layout / NV.Index.CsiLayout, see C17).  BAI reads back
+   equal; a CSI index reads back with different per-bin loffsets but the same query answers. ---- *)
+From NV Require Import Index.Layout Index.LayoutProofs Index.CsiLayout Index.CsiLayoutProofs Index.ViaFileProofs.
+
+Theorem c04_via_file_bai :
+  forall ms d file meta nref unplaced k qs qe,
+    let i := built_bai ms d file meta nref unplaced in
+    bai_ok i -> offsets_ordered 0 file -> spans_ok ms d file ->
+    1 <= qs -> qs <= qe -> qe <= max_position ms d -> (k < nref)%nat ->
+    exists i', read_bai (w_bai i) = Some i' /\
+      query_records_ix Linear ms d (bref_refidx (nth k (bi_refs i') empty_bref)) file (N.of_nat k) qs qe
+      = Some (scan_records file (N.of_nat k) qs qe).
+Proof. exact via_file_bai. Qed.
+Print Assumptions c04_via_file_bai.
+
+Theorem c04_via_file_csi :
+  forall ms d file hdr meta nref unplaced k qs qe,
+    let i := built_csi ms d file hdr meta nref unplaced in
+    csi_ok i -> offsets_ordered 0 file -> spans_ok ms d file ->
+    1 <= qs -> qs <= qe -> qe <= max_position ms d -> (k < nref)%nat ->
+    exists i', w_csi i = WOk (w_csi_bytes i) /\ read_csi (w_csi_bytes i) = Some i' /\
+      query_records_ix Binned ms d (cref_refidx (nth k (ci_refs i') empty_cref)) file (N.of_nat k) qs qe
+      = Some (scan_records file (N.of_nat k) qs qe).
+Proof. exact via_file_csi. Qed.
+Print Assumptions c04_via_file_csi.
+
+(* ---- the reference span "computed per the specs from POS and CIGAR": the model of
+   sam::alignment::Record::alignment_end returns POS + (sum of the M D N = X lengths) - 1, POS
+   when that sum is 0, and an error exactly when that does not fit a usize ---- *)
+From NV Require Import Index.AlignEnd Index.AlignEndProofs.
+
+Theorem c04_alignment_end_spec :
+  forall s c, 1 <= s -> s < usize_lim ->
+    alignment_end (Some s) c = if spec_end s c <? usize_lim then EPos (spec_end s c) else EErr.
+Proof. exact alignment_end_spec. Qed.
+Print Assumptions c04_alignment_end_spec.
+
+Example c04_alignment_end_example :
+  alignment_end (Some 100) [(4, 5); (0, 10); (1, 3); (2, 2); (3, 100); (7, 4); (8, 1); (5, 9)] = EPos 216 /\
+  alignment_end (Some 100) [(4, 5); (1, 3)] = EPos 100 /\
+  alignment_end (Some 2) [(0, 18446744073709551615)] = EErr.
+Proof. vm_compute. repeat split; reflexivity. Qed.
